@@ -28,7 +28,7 @@ ASSUMPTIONS = [
     "an exception raised by mashumaro's code generator while the class is being defined means the class cannot exist: no verdict (counted)",
     "first use = first instantiation, performed after all classes of the module (incl. forward-referenced ones) are defined",
 ]
-MUST_SEE = ["base_used_before_subclass", "same_name_in_another_module", "none_default_fields", "init_false_fields", "reject_at_first_use", "reject_at_definition", "override_changes_category", "newtype_node_in_tuple", "none_annotation", "child_verdicts", "prop_verdicts", "forward_refs", "postponed", "inherited", "reuse_after_rejection"]
+MUST_SEE = ["directed_depth3_annotations", "base_used_before_subclass", "same_name_in_another_module", "none_default_fields", "init_false_fields", "reject_at_first_use", "reject_at_definition", "override_changes_category", "newtype_node_in_tuple", "none_annotation", "child_verdicts", "prop_verdicts", "forward_refs", "postponed", "inherited", "reuse_after_rejection"]
 CONFIG = {
     "quick": {"shards": 16, "d2_sample": 200, "d3_sample": 40, "layouts_per_ann": 3, "watchdog_s": 600},
     "thorough": {"shards": 32, "d2_sample": -1, "d3_sample": 2000, "layouts_per_ann": 99, "watchdog_s": 3400},
@@ -286,6 +286,19 @@ def run_shard(ctx):
         combos = [(layout, sp) for layout in LAYOUTS for sp in spellings_for(a)]
         for layout, sp in (combos if lp >= len(combos) else rng.sample(combos, lp)):
             work.append((a, layout, sp))
+    # depth 3, directed: something that must be rejected (a mutable container, a node, a tuple of nodes) two levels
+    # below an immutable container, behind an optional / a union (complete family, split over the shards)
+    inners = [("list", ("int",)), ("set", ("str",)), ("dict", ("str",), ("int",)), ("node", "N0"), ("tvar", ("node", "N0")), ("int",), ("fset", ("int",))]
+    mids = [lambda x: ("opt", x, "pipe"), lambda x: ("opt", x, "typing"), lambda x: ("union", (x, ("int",)), "pipe"), lambda x: ("union", (("str",), x), "typing")]
+    outers = [lambda x: ("tvar", x), lambda x: ("fset", x), lambda x: ("seq", x), lambda x: ("map", ("str",), x), lambda x: ("tfix", (("int",), x))]
+    fam = [o(m(i)) for o in outers for m in mids for i in inners]
+    for j, a in enumerate(fam):
+        if j % ctx.nshards != ctx.shard or AG.pipe_unevaluable(a):
+            continue
+        combos = [(layout, sp) for layout in LAYOUTS for sp in spellings_for(a)]
+        for layout, sp in rng.sample(combos, min(4, len(combos))):
+            work.append((a, layout, sp))
+            ctx.count("directed_depth3_annotations")
     for _ in range(ctx.params["d3_sample"]):
         a = AG.gen_random(rng, 3)
         if AG.pipe_unevaluable(a):
